@@ -7,10 +7,15 @@
 use parol::{Cfg, Pr, Symbol, SymbolAttribute, Terminal, augment_grammar};
 use std::collections::BTreeSet;
 
-const NT: [&str; 3] = ["S", "A", "S0"];
+// S0/S1: names the fresh-name generator would pick next, so that freshness is really exercised
+const NT: [&str; 4] = ["S", "A", "S0", "S1"];
 
+/// symbol codes: 0..4 plain non-terminals, 4..8 the same non-terminals decorated (clipped `S^`), 8 the terminal x
+const NSYM: usize = 2 * NT.len() + 1;
 fn sym(code: usize) -> Symbol {
-    if code < NT.len() { Symbol::n(NT[code]) } else { Symbol::T(Terminal::t("x", vec![0], SymbolAttribute::None)) }
+    if code < NT.len() { Symbol::n(NT[code]) }
+    else if code < 2 * NT.len() { Symbol::N(NT[code - NT.len()].to_string(), SymbolAttribute::Clipped, None, None) }
+    else { Symbol::T(Terminal::t("x", vec![0], SymbolAttribute::None)) }
 }
 /// all right-hand sides of length 0..=max_len over NT + {x}
 fn all_rhs(max_len: usize) -> Vec<Vec<usize>> {
@@ -18,7 +23,7 @@ fn all_rhs(max_len: usize) -> Vec<Vec<usize>> {
     let mut cur: Vec<Vec<usize>> = vec![vec![]];
     for _ in 0..max_len {
         let mut nx = vec![];
-        for r in &cur { for c in 0..=NT.len() { let mut t = r.clone(); t.push(c); nx.push(t); } }
+        for r in &cur { for c in 0..NSYM { let mut t = r.clone(); t.push(c); nx.push(t); } }
         out.extend(nx.iter().cloned());
         cur = nx;
     }
@@ -64,24 +69,29 @@ fn main() {
     std::panic::set_hook(Box::new(|_| {}));
     let a: Vec<String> = std::env::args().collect();
     if a[1] == "search" {
-        let max_prods: usize = a[2].parse().unwrap();
-        let max_rhs: usize = a[3].parse().unwrap();
-        let rhs = all_rhs(max_rhs);
-        let mut one: Vec<(usize, Vec<usize>)> = vec![];
-        for l in 0..NT.len() { for r in &rhs { one.push((l, r.clone())); } }
+        // arguments: pairs (max productions, max right-hand-side length); the spaces are united
         let mut cases = 0u64;
-        let mut stack: Vec<Vec<(usize, Vec<usize>)>> = vec![vec![]];
-        while let Some(g) = stack.pop() {
-            if !g.is_empty() {
-                for st in 0..NT.len() {
-                    cases += 1;
-                    if let Some(clause) = check(st, &g) {
-                        println!("BORDER-VIOLATION\t{}\t{}", clause, describe(st, &g));
-                        std::process::exit(1);
+        let mut k = 2;
+        while k + 1 < a.len() {
+            let max_prods: usize = a[k].parse().unwrap();
+            let max_rhs: usize = a[k + 1].parse().unwrap();
+            k += 2;
+            let rhs = all_rhs(max_rhs);
+            let mut one: Vec<(usize, Vec<usize>)> = vec![];
+            for l in 0..NT.len() { for r in &rhs { one.push((l, r.clone())); } }
+            let mut stack: Vec<Vec<(usize, Vec<usize>)>> = vec![vec![]];
+            while let Some(g) = stack.pop() {
+                if !g.is_empty() {
+                    for st in 0..NT.len() {
+                        cases += 1;
+                        if let Some(clause) = check(st, &g) {
+                            println!("BORDER-VIOLATION\t{}\t{}", clause, describe(st, &g));
+                            std::process::exit(1);
+                        }
                     }
                 }
+                if g.len() < max_prods { for p in &one { let mut h = g.clone(); h.push(p.clone()); stack.push(h); } }
             }
-            if g.len() < max_prods { for p in &one { let mut h = g.clone(); h.push(p.clone()); stack.push(h); } }
         }
         for c in ["callee: matching_productions(n).len() == number of productions with LHS n",
                   "callee: get_non_terminal_set() == {start} + all LHS + all RHS non-terminals",
